@@ -19,7 +19,8 @@ c_aba == <<"/", "a", "/", "b", "/", "a">>
 c_aa  == <<"/", "a", "/", "a">>
 c_aabb == <<"/", "a", "b", "/", "b">>     \* "/ab/b": /a is a textual prefix, and a further segment follows
 c_a_b == <<"/", "a", "/", "/", "b">>       \* "/a//b": an empty segment is a segment
-Cmds5 == {c_top, c_a, c_ab, c_aab, c_b, c_aabb, c_a_b}
+c_abb == <<"/", "a", "/", "b", "b">>        \* "/a/bb": a textual extension of the LAST segment of /a/b
+Cmds5 == {c_top, c_a, c_ab, c_aab, c_b, c_aabb, c_a_b, c_abb}
 Cmds7 == Cmds5 \cup {c_aba, c_aa}
 
 MissingLink == [missing |-> TRUE, iss |-> "A", aud |-> "A", sub |-> "A", cmd |-> c_top,
